@@ -1,9 +1,15 @@
 """Shared orchestration for the acl-rules family (C04, C05): TLC runs on spec/acl and the Go binding
 harness/acl. Loaded by checks/C04.py and checks/C05.py."""
+import concurrent.futures
+import glob
 import json
 import os
 import re
 import shutil
+import subprocess
+import threading
+import time
+import uuid
 
 import sys
 
@@ -48,20 +54,93 @@ def variant(cfg, **subst):
     return txt
 
 
-def mc(ctx, name, cfg, module="AclMC", coverage=False, timeout=1800, workers=None, **subst):
+_lock = threading.Lock()
+_vfm = sys.modules.get("__main__") if hasattr(sys.modules.get("__main__"), "TlcResult") else _vf
+
+
+def _tlc(ctx, module, cfgname, cfgtext, name, workers=2, env=None, extra=None, simulate=None, depth=None,
+         timeout=1800, count=True, heap="3g"):
+    """ctx.tlc with a private scratch directory, so that several TLC jobs can run at the same time
+    (ctx.tlc numbers its directories by the length of the run list, which races)."""
+    src = os.path.join(_vfm.VERIF, "spec", SPEC)
+    wd = os.path.join(ctx.scratch, "ptlc-" + uuid.uuid4().hex[:10])
+    os.makedirs(wd)
+    for f in os.listdir(src):
+        if os.path.isfile(os.path.join(src, f)) and not f.endswith(".py"):
+            shutil.copy(os.path.join(src, f), wd)
+    for f in glob.glob(os.path.join(_vfm.VERIF, "lib", "tla", "*.tla")):
+        shutil.copy(f, wd)
+    with open(os.path.join(wd, cfgname), "w") as fh:
+        fh.write(cfgtext)
+    cmd = ["java", "-XX:+UseParallelGC", "-Xmx" + heap, "-Xss64m", "-cp",
+           "/opt/veriftools/tla/tla2tools.jar:/opt/veriftools/tla/CommunityModules-deps.jar", "tlc2.TLC",
+           "-metadir", os.path.join(wd, "meta"), "-config", cfgname, "-workers", str(workers)]
+    if simulate is not None:
+        cmd += ["-simulate", "num=%d" % simulate, "-seed", str(ctx.seed)]
+    if depth is not None:
+        cmd += ["-depth", str(depth)]
+    cmd += list(extra or []) + [module]
+    e = dict(os.environ)
+    e.update(env or {})
+    res = _vfm.TlcResult()
+    res.workdir = wd
+    t0 = time.time()
+    try:
+        p = subprocess.run(cmd, cwd=wd, env=e, stdout=subprocess.PIPE, stderr=subprocess.STDOUT, timeout=timeout,
+                           text=True, errors="replace")
+        res.exit, res.out = p.returncode, p.stdout
+    except subprocess.TimeoutExpired as ex:
+        res.timed_out, res.exit = True, -1
+        res.out = ex.stdout.decode("utf8", "replace") if isinstance(ex.stdout, bytes) else (ex.stdout or "")
+        subprocess.run(["pkill", "-f", wd], check=False)
+    res.wall = time.time() - t0
+    _vfm.parse_tlc(res.out, res)
+    run = {"name": name, "generated": res.generated, "distinct": res.distinct, "depth": res.depth,
+           "wall_s": round(res.wall, 2), "mode": "simulate" if simulate is not None else "exhaustive",
+           "error": res.error, "error_name": res.error_name, "timed_out": res.timed_out}
+    with _lock:
+        ctx.cov["tlc_runs"].append(run)
+        if count:
+            ctx.cov["states"] += res.distinct
+            ctx.cov["transitions"] += res.generated
+    ctx.log("tlc %s: %d generated / %d distinct, depth %d, %.1fs, error=%s %s%s" % (
+        name, res.generated, res.distinct, res.depth, res.wall, res.error, res.error_name or "",
+        " TIMEOUT" if res.timed_out else ""))
+    return res
+
+
+def parallel(ctx, jobs, width=None):
+    """Run thunks concurrently (TLC jobs are independent processes); the first failure is re-raised."""
+    width = width or max(2, min(len(jobs), ctx.cores // 2))
+    with concurrent.futures.ThreadPoolExecutor(max_workers=width) as ex:
+        futs = [ex.submit(j) for j in jobs]
+        errs = []
+        for f in futs:
+            try:
+                f.result()
+            except BaseException as e:  # noqa
+                errs.append(e)
+        if errs:
+            raise errs[0]
+
+
+def mc(ctx, name, cfg, module="AclMC", timeout=1800, workers=2, **subst):
     """Exhaustive run that must pass."""
-    fn = "gen_%s.cfg" % name
-    return ctx.tlc_expect_ok(SPEC, module, fn, files={fn: variant(cfg, **subst)}, coverage=coverage,
-                             timeout=timeout, workers=workers, name="acl/%s" % name)
+    res = _tlc(ctx, module, "gen_%s.cfg" % name, variant(cfg, **subst), "acl/%s" % name, workers=workers, timeout=timeout)
+    if res.timed_out:
+        raise CheckBroken("TLC timed out: acl/%s" % name)
+    if not res.ok:
+        raise CheckBroken("MODEL-ERROR: TLC reported %s %s on the specification alone (acl/%s)\n%s" % (
+            res.error, res.error_name, name, "\n".join(res.out.splitlines()[-60:])))
+    return res
 
 
 def emit(ctx, name, cfg, simulate=None, depth=None, timeout=1800, **subst):
     """Behaviour generation: returns the directory with meta.json + b*.json."""
     out = os.path.join(ctx.scratch, "emit", name)
     os.makedirs(out)
-    fn = "gen_%s.cfg" % name
-    res = ctx.tlc(SPEC, "AclGen", fn, files={fn: variant(cfg, **subst)}, workers=1, env={"VERIF_EMIT_DIR": out},
-                  timeout=timeout, count=False, simulate=simulate, depth=depth, name="acl/gen-%s" % name)
+    res = _tlc(ctx, "AclGen", "gen_%s.cfg" % name, variant(cfg, **subst), "acl/gen-%s" % name, workers=1,
+               env={"VERIF_EMIT_DIR": out}, timeout=timeout, count=False, simulate=simulate, depth=depth)
     if res.timed_out or not res.ok:
         raise CheckBroken("behaviour generation %s failed: %s %s\n%s" % (name, res.error, res.error_name, res.out[-3000:]))
     n = len([f for f in os.listdir(out) if f.startswith("b")])
@@ -71,17 +150,16 @@ def emit(ctx, name, cfg, simulate=None, depth=None, timeout=1800, **subst):
     return out
 
 
-def asis(ctx, name, expect, cfg="Acl_asis.cfg", timeout=900, workers=None, **subst):
+def asis(ctx, name, expect, cfg="Acl_asis.cfg", timeout=900, workers=2, **subst):
     """An instance with one validator gap left open: TLC must find a counterexample of property
     `expect` (list of acceptable names). Returns the directory holding meta.json + cex.json for the harness."""
     out = os.path.join(ctx.scratch, "cex", name)
     os.makedirs(out)
-    fn = "asis_%s.cfg" % name
     consts = {f: True for f in FIXES}
     consts.update(subst)
     tracefile = os.path.join(out, "trace.json")
-    res = ctx.tlc(SPEC, "AclCex", fn, files={fn: variant(cfg, **consts)}, env={"VERIF_EMIT_DIR": out}, timeout=timeout,
-                  workers=workers, count=False, extra=["-dumpTrace", "json", tracefile], name="acl/asis-%s" % name)
+    res = _tlc(ctx, "AclCex", "asis_%s.cfg" % name, variant(cfg, **consts), "acl/asis-%s" % name, workers=workers,
+               env={"VERIF_EMIT_DIR": out}, timeout=timeout, count=False, extra=["-dumpTrace", "json", tracefile])
     if res.timed_out:
         raise CheckBroken("as-is instance %s timed out" % name)
     if res.error not in ("invariant", "action_property") or res.error_name not in expect:
@@ -102,7 +180,8 @@ def asis(ctx, name, expect, cfg="Acl_asis.cfg", timeout=900, workers=None, **sub
     json.dump({"name": name, "prop": res.error_name, "path": path}, open(os.path.join(out, "cex.json"), "w"))
     os.remove(tracefile)
     ctx.log("as-is %s: TLC violates %s after %d records: %s" % (name, res.error_name, len(path), json.dumps(path[-1])[:200]))
-    ctx.cov.setdefault("asis_counterexamples", {})[name] = {"property": res.error_name, "records": len(path)}
+    with _lock:
+        ctx.cov.setdefault("asis_counterexamples", {})[name] = {"property": res.error_name, "records": len(path)}
     return out
 
 
